@@ -154,7 +154,8 @@ def run_check(mod, tier, seed, only=None, jobs=None):
     hard_disagreements = [d for d in disagreements if d["failure"]["label"] not in reproduced_labels]
 
     wall = time.time() - t0
-    os.makedirs(os.path.join(VERIF, "evidence"), exist_ok=True)
+    evdir = os.environ.get("SX_EVIDENCE_DIR", os.path.join(VERIF, "evidence"))
+    os.makedirs(evdir, exist_ok=True)
     os.makedirs(os.path.join(VERIF, "replays", pid), exist_ok=True)
 
     code = EXIT_OK
@@ -228,7 +229,7 @@ def run_check(mod, tier, seed, only=None, jobs=None):
         "violations": len(violations),
         "exit_code": code,
     }
-    with open(os.path.join(VERIF, "evidence", f"{pid}.json"), "w") as fp:
+    with open(os.path.join(evdir, f"{pid}.json"), "w") as fp:
         json.dump(ev, fp, indent=1, default=str)
     for ln in lines:
         print(ln)
@@ -242,15 +243,15 @@ def run_check(mod, tier, seed, only=None, jobs=None):
     if os.environ.get("SX_VERBOSE"):
         for r in sorted(results, key=lambda r: -r["wall_s"])[:15]:
             print(f"  {r['wall_s']:.1f}s paths={r.get('paths')} q={r.get('queries')} fail={len(r.get('failures', []))} {json.dumps(r['case'])[:150]}")
-        for e in list(seen_keys.values())[:20]:
-            print("  witness:", json.dumps({"key": e["key"], "inputs": e["failure"]["inputs"], "replay": e["replay"]}, default=str)[:700])
+        for e in list(seen_keys.values())[:8]:
+            print("  witness:", json.dumps({"key": e["key"], "repro": e["replay"].get("reproduced"), "inputs": e["replay"].get("inputs")}, default=str)[:400])
     if errors:
         print("first error:", errors[0]["case"], errors[0]["error"][:2000])
     if inconclusive:
-        print("first inconclusive:", inconclusive[0])
+        print("first inconclusive:", str(inconclusive[0])[:700])
     if hard_disagreements:
         d = hard_disagreements[0]
-        print("first non-reproduced witness:", json.dumps({"key": d["key"], "failure": d["failure"], "replay": d["replay"]}, default=str)[:2000])
+        print("first non-reproduced witness:", json.dumps({"key": d["key"], "failure": d["failure"], "replay": d["replay"]}, default=str)[:700])
     return code
 
 
